@@ -78,7 +78,11 @@ def run(tier, out):
         for seed in range(base + 1000, base + 1400):       # plus systems in which two jobs share a storage
             if len(plan) >= n_models + (2 if tier == "quick" else 8):
                 break
-            if storage_users(gen.random_model(random.Random(seed))):
+            mcand = gen.random_model(random.Random(seed))
+            if storage_users(mcand) and any(
+                    uj in efx.reachable(mcand) and len(mcand[uj]["lst"]["uj_steps"]) >= 2
+                    and any(mcand[s]["lst"]["jobs"] for s in mcand[uj]["lst"]["uj_steps"][1:])
+                    for uj in efx.names_of(mcand, "UsageJourney")):
                 plan.append((seed, True))
         for seed, with_delete in plan:
             rng = random.Random(seed)
@@ -99,7 +103,14 @@ def run(tier, out):
                     model[ja]["inp"]["data_stored"] = [200, "kB"]
                     model[jb]["inp"]["data_stored"] = [-50, "kB"]
                     model[sto]["inp"]["base_storage_need"] = [1, "TB"]
-                    forced = [(ja, "data_stored"), (jb, "data_stored")]
+                    forced = [(ja, "data_stored"), (jb, "data_stored"), (sto, "base_storage_need")]
+                    # whole numbers of hours and of instances, where a float a hair off the whole number would show
+                    first_steps = [model[uj]["lst"]["uj_steps"][0] for uj in efx.names_of(model, "UsageJourney")
+                                   if uj in efx.reachable(model) and len(model[uj]["lst"]["uj_steps"]) >= 2
+                                   and any(model[s]["lst"]["jobs"] for s in model[uj]["lst"]["uj_steps"][1:])]
+                    if first_steps:
+                        model[first_steps[0]]["inp"]["user_time_spent"] = [40, "min"]       # x 1.5 = one hour exactly
+                        forced.append((first_steps[0], "user_time_spent"))
             try:
                 ref_live = efx.build(ns, model)
             except Exception:
@@ -124,7 +135,7 @@ def run(tier, out):
                 alts = alternatives(ns, mv[1])
                 if not alts:
                     continue
-                for unit2 in (alts if tier == "thorough" else [rng.choice(alts)]):
+                for unit2 in (alts if tier == "thorough" or (n, a) in forced else [rng.choice(alts)]):
                     tid += 1
                     key = f"{model[n]['cls']}.{a}"
                     covered.setdefault(key, set()).add(unit2)
@@ -178,6 +189,35 @@ def run(tier, out):
                             events.append({"tid": tid, "seq": 2, "ev": "Sibling", "seed": seed,
                                            "variant": f"unit-corrected-on-a-live-system({key}: {mv[0]} {mv[1]} -> {mv[0]} {unit2})",
                                            "differs": d})
+        # whole numbers of hours and of instances: 3 x 20 min is one hour however 20 min is written, 2 TB on 1 TB disks is
+        # two instances however 2 TB is written (a float a hair off the whole number would be floored / ceiled elsewhere)
+        bm = {}
+        bm["sto1"] = efx.new_obj("Storage", storage_capacity=[1, "TB"], base_storage_need=[2, "TB"])
+        bm["sv1"] = efx.new_obj("Server", storage="sto1")
+        bm["j1"] = efx.new_obj("Job", server="sv1", data_stored=[0, "kB"])
+        bm["j2"] = efx.new_obj("Job", server="sv1", data_stored=[0, "kB"])
+        bm["s1"] = efx.new_obj("UsageJourneyStep", jobs=["j1"], user_time_spent=[20, "min"])
+        bm["s2"] = efx.new_obj("UsageJourneyStep", jobs=["j2"], user_time_spent=[1, "min"])
+        bm["uj1"] = efx.new_obj("UsageJourney", uj_steps=["s1", "s1", "s1", "s2"])
+        bm["d1"], bm["n1"], bm["c1"] = efx.new_obj("Device"), efx.new_obj("Network"), efx.new_obj("Country")
+        bm["up1"] = efx.new_obj("UsagePattern", usage_journey="uj1", network="n1", country="c1", devices=["d1"],
+                                starts=[3, 1, 4, 1, 5, 9, 2, 6])
+        bm["sys"] = efx.new_obj("System", usage_patterns=["up1"])
+        bnames = sorted(efx.reachable(bm))
+        bref = efx.snapshot(ns, efx.build(ns, bm), bnames)
+        for (bn, ba) in (("s1", "user_time_spent"), ("sto1", "base_storage_need")):
+            for unit2 in alternatives(ns, bm[bn]["inp"][ba][1]):
+                tid += 1
+                b2 = copy.deepcopy(bm)
+                b2[bn]["inp"][ba] = reexpress(ns, bm[bn]["inp"][ba], unit2)
+                try:
+                    d = [list(x) for x in efx.diff(bref, efx.snapshot(ns, efx.build(ns, b2), bnames), bnames)]
+                except Exception as ex:   # noqa
+                    d = [[f"build raised {type(ex).__name__}", str(ex)[:80]]]
+                events.append({"tid": tid, "seq": 0, "ev": "Sibling", "seed": -1,
+                               "variant": f"unit-at-creation({bm[bn]['cls']}.{ba}: whole-number case, {bm[bn]['inp'][ba][1]} -> {unit2})",
+                               "differs": d})
+                out.nontrivial.add(("whole-number", bn, ba, unit2))
         trace = wd + "/c10.ndjson"
         tracecheck.write_trace(trace, events, keys=("tid", "seq", "ev", "variant", "differs"))
         fails, _n, res2 = tracecheck.validate(wd, "Trace_Edit", trace, {"JFN": "TRUE"}, timeout=3000)
